@@ -325,6 +325,17 @@ pub fn recursion_programs(out: &mut Vec<(String, Program)>) {
         ("comparison-held", vec![Stmt::Expr(ifv(bin(BinOp::Lt, h(), add(r(), int(1000))), add(h(), int(1)), int(5)))]),
         ("string-held", vec![def("st", add(s("<"), s(">"))), def("rr", r()), print_of(var("st")), Stmt::Expr(add(h(), var("rr")))]),
         ("two-calls", vec![Stmt::Expr(add(add(r(), h()), r()))]),
+        ("if-value-with-ret-branch", vec![Stmt::Expr(add(if_e(bin(BinOp::Gt, var("n"), int(5)), vec![Stmt::Ret(Some(int(0)))], Some(vec![Stmt::Expr(h())])), r()))]),
+        ("if-value-with-ret-branch-right", vec![Stmt::Expr(add(r(), if_e(bin(BinOp::Gt, var("n"), int(5)), vec![Stmt::Ret(Some(int(0)))], Some(vec![Stmt::Expr(h())]))))]),
+        ("if-value-with-unreachable-branch", vec![Stmt::Expr(add(if_e(bin(BinOp::Gt, var("n"), int(5)), vec![Stmt::Unreachable(0)], Some(vec![Stmt::Expr(h())])), r()))]),
+        ("if-value-ret-in-else", vec![Stmt::Expr(add(if_e(bin(BinOp::Le, var("n"), int(5)), vec![Stmt::Expr(h())], Some(vec![Stmt::Ret(Some(int(0)))])), r()))]),
+        ("case-value-with-ret-arm", vec![Stmt::Expr(add(Expr::Case(Box::new(variant_a(var("n"))), vec![CaseArm { variant: "A".into(), bind: Some("q".into()), body: vec![Stmt::Expr(mul(var("q"), int(10)))] }], Some(vec![Stmt::Ret(Some(int(0)))])), r()))]),
+        ("case-value-ret-in-arm", vec![Stmt::Expr(add(Expr::Case(Box::new(Expr::Variant("E".into(), "B".into(), None)), vec![CaseArm { variant: "A".into(), bind: Some("q".into()), body: vec![Stmt::Ret(Some(var("q")))] }], Some(vec![Stmt::Expr(h())])), r()))]),
+        ("nested-if-values", vec![Stmt::Expr(add(ifv(bin(BinOp::Gt, var("n"), int(1)), ifv(bin(BinOp::Gt, var("n"), int(2)), h(), int(5)), int(7)), r()))]),
+        ("if-value-in-argument", vec![Stmt::Expr(callv("sum2", vec![ifv(bin(BinOp::Gt, var("n"), int(1)), h(), int(7)), r()]))]),
+        ("elif-value", vec![Stmt::Expr(add(Expr::If(vec![(bin(BinOp::Gt, var("n"), int(2)), vec![Stmt::Expr(h())]), (bin(BinOp::Gt, var("n"), int(1)), vec![Stmt::Expr(int(6))])], Some(vec![Stmt::Expr(int(7))])), r()))]),
+        ("loop-local-held", vec![def("i", int(0)), def("acc", int(0)), Stmt::Loop(Some(bin(BinOp::Lt, var("i"), int(2))), vec![def("hh", add(h(), var("i"))), op_assign("acc", BinOp::Add, add(var("hh"), r())), op_assign("i", BinOp::Add, int(1))]), Stmt::Expr(var("acc"))]),
+        ("variable-read-then-mutating-call", vec![def("x", h()), cdef("bumpx", lam(vec![], RetAnn::Ty(Ty::Int), vec![op_assign("x", BinOp::Add, int(1)), Stmt::Expr(r())])), Stmt::Expr(add(var("x"), callv("bumpx", vec![])))]),
         ("early-ret-in-loop", vec![def("i", int(0)), Stmt::Loop(None, vec![op_assign("i", BinOp::Add, int(1)), if_s(bin(BinOp::Gt, var("i"), int(1)), vec![Stmt::Ret(Some(add(h(), r())))])]), Stmt::Expr(int(0))]),
     ];
     for (name, body) in bodies {
